@@ -752,6 +752,19 @@ class NP:
         shape[ax] = total
         return STensor(tuple(shape), fn, V.dtype_join(*[t.dtype for t in ts]))
 
+    def f_ix_(self, interp, line, *seqs):
+        """np.ix_(a, b, ...): the open mesh - a as a column, b as a row, ... (indexing with it takes the cross product)."""
+        out = []
+        n = len(seqs)
+        for k, sq in enumerate(seqs):
+            t = as_tensor(V.tensor_from_nested(sq) if isinstance(sq, list) else sq)
+            if t.ndim != 1:
+                raise Unsupported('ix_ of a non-1-D sequence')
+            tf = t.fn
+            shape = tuple(t.shape[0] if j == k else 1 for j in range(n))
+            out.append(STensor(shape, (lambda kk, f: (lambda *i: f(i[kk])))(k, tf), t.dtype))
+        return tuple(out)
+
     def f_append(self, interp, line, arr, values, axis=None):
         a, v = as_tensor(arr), as_tensor(values)
         if axis is None:
